@@ -360,9 +360,10 @@ func (srv *server) registerClient(connect *packets.Connect, client *client) (ses
 			var willDelayInterval, expiryInterval uint32
 			if connect.WillFlag {
 				willMsg = &gmqtt.Message{
-					QoS:     connect.WillQos,
-					Topic:   string(connect.WillTopic),
-					Payload: connect.WillMsg,
+					QoS:      connect.WillQos,
+					Retained: connect.WillRetain,
+					Topic:    string(connect.WillTopic),
+					Payload:  connect.WillMsg,
 				}
 				setWillProperties(connect.WillProperties, willMsg)
 			}
